@@ -294,6 +294,8 @@ def entry_expect(ctx, e):
                 v = int(m.get('value'))
                 if -2 ** 31 <= v < 2 ** 32:
                     x['value'] = v - (1 << 32) if v >= (1 << 31) else v
+                    if v >= (1 << 31):
+                        x['unsigned_value'] = 1       # ValueBlob.value is a gint32: the flag is what keeps 2^31..2^32-1 positive
             except (TypeError, ValueError):
                 pass
             vals.append(x)
